@@ -738,6 +738,81 @@ fn execute_repeat(case: &Json, mut o: Outcome) -> Outcome {
     o
 }
 
+/// The program of a deep-nesting case.
+fn deepnest_program(op: &str, depth: u64, container: &str) -> String {
+    let (init, step) = match container {
+        "tuple" => ("()", "(dz,)"),
+        "dict" => ("{}", "{\"k\": dz}"),
+        "struct" => ("struct(a = 1)", "struct(a = dz)"),
+        _ => ("[]", "[dz]"),
+    };
+    let build = format!("def nest(n):\n    dz = {init}\n    for _i in range(n):\n        dz = {step}\n    return dz\ndz = nest({depth})\n");
+    let tail = match op {
+        "gc" => "junk = [str(i) * 40 for i in range(30000)]\nafter = 1\nemit(after)\n".to_owned(),
+        "repr" => "emit(len(repr(dz)))\n".to_owned(),
+        "str" => "emit(len(str(dz)))\n".to_owned(),
+        "hash" => "emit(len({(dz,): 1}))\n".to_owned(),
+        "eq" => format!("dy = nest({depth})\nemit(dz == dy)\n"),
+        "json" => "emit(len(json.encode(dz)))\n".to_owned(),
+        "sorted" => format!("dy = nest({depth})\nemit(len(sorted([dz, dy])))\n"),
+        "format" => "emit(len(\"%s\" % (dz,)))\n".to_owned(),
+        "drop" => "dz = None\nemit(1)\n".to_owned(),
+        _ => String::new(), // freeze: nothing more, the module is frozen afterwards
+    };
+    format!("{build}{tail}")
+}
+
+/// Runs in a child process of its own: a native stack overflow kills the process.
+fn execute_deepnest_inner(case: &Json, mut o: Outcome) -> Outcome {
+    let text = deepnest_program(case["op"].as_str().unwrap_or("freeze"), case["depth"].as_u64().unwrap_or(1000), case["container"].as_str().unwrap_or("list"));
+    kit::ctx_reset();
+    let frozen = Module::with_temp_heap(|module| {
+        {
+            let mut eval = Evaluator::new(&module);
+            let r = run_step(&mut eval, &module, &json!({"kind": "module", "text": text}), 0, &["h0.star".to_owned()]);
+            for (c, d) in &r.problems {
+                o.violate(c, c, d.clone());
+            }
+            o.bump(if r.ok { "deepnest.evaluations_ok" } else { "deepnest.evaluations_ending_in_error" }, 1);
+        }
+        module.freeze().map(|_| ())
+    });
+    if let Err(e) = frozen {
+        o.bump("deepnest.freeze_errors", 1);
+        let _ = e;
+    }
+    o.nontrivial = true;
+    o
+}
+
+fn execute_deepnest(case: &Json, mut o: Outcome) -> Outcome {
+    let mut inner = case.clone();
+    inner["mode"] = json!("deepnest-inner");
+    let what = format!("{} nested {} deep, then `{}`", case["container"].as_str().unwrap_or(""), case["depth"], case["op"].as_str().unwrap_or(""));
+    o.sim_time += 1;
+    match exec_case_in_child("C07", &inner, 120) {
+        ChildResult::Outcome(r) => {
+            o.bump("probe.deep_nesting_survived", 1);
+            if let Some(v) = r.violation {
+                o.violate(&v.class, &v.key, format!("{what}: {}", v.detail));
+            }
+            o.nontrivial = true;
+        }
+        ChildResult::Crash(desc) => {
+            // Recorded, not repaired: the collector, the freezer, repr/str and hashing recurse on the
+            // native stack once per nesting level.
+            if desc.contains("signal 6") || desc.contains("signal 11") {
+                o.note_known("deep-nesting/native-stack-overflow", format!("{what}: the process died ({desc})"));
+            } else {
+                o.violate("crash", "crash", format!("{what}: {desc}"));
+            }
+        }
+        ChildResult::Hang => o.violate("hang", "hang", format!("{what}: no result within 120 s")),
+    }
+    o.log_hash = fnv(what.as_bytes());
+    o
+}
+
 fn execute_enum(case: &Json, mut o: Outcome) -> Outcome {
     let (callee, calls) = enum_calls(case);
     let callee = &callee;
@@ -831,6 +906,12 @@ impl World for C07 {
     }
 
     fn generate(&self, seed: u64, index: u64, tier: Tier) -> Json {
+        if index % 64 == 30 {
+            // A value nested very deeply (built by a loop), then one operation that walks it.
+            let mut r = Rng::new(run_seed(seed, "C07deep", index));
+            let op = *r.pick(&["freeze", "gc", "repr", "str", "hash", "eq", "json", "drop", "sorted", "format"]);
+            return json!({"mode": "deepnest", "op": op, "depth": *r.pick(&[20_000u64, 300_000, 3_000_000]), "container": *r.pick(&["list", "tuple", "dict", "struct"])});
+        }
         if index % 16 == 14 {
             // One failing evaluation repeated many times on one evaluator: whatever a failure
             // leaves behind (a frame, a recursion level, an entry of a guard set) adds up.
@@ -911,6 +992,12 @@ impl World for C07 {
         }
         if case["mode"] == "repeat" {
             return execute_repeat(case, o);
+        }
+        if case["mode"] == "deepnest" {
+            return execute_deepnest(case, o);
+        }
+        if case["mode"] == "deepnest-inner" {
+            return execute_deepnest_inner(case, o);
         }
         let mut log: Vec<String> = Vec::new();
         let probe_ref = fresh_probe();
